@@ -19,7 +19,7 @@ RULE = ("one case = one model (three state types, n=1..4, parameters restricted 
         "every used basis is >= 1e-12) with random normalised complex targets (pure: generic / real / sparse; mixed: full "
         "rank, rank-1, rank-deficient), basis lists with repeats and all-Z, sample multisets with per-row bases. "
         "Non-trivial: all parameters non-zero and at least one basis with Y; distinct by sha256(parameters, targets, bases).")
-REQUIRED = ["fidelity_values_compared", "kl_values_compared", "nll_values_compared", "type_checks", "self_fidelity_checks",
+REQUIRED = ["states_used_before_with_other_parameters", "fidelity_values_compared", "kl_values_compared", "nll_values_compared", "type_checks", "self_fidelity_checks",
             "self_kl_checks", "kl_dict_target_calls", "kl_bases_none_calls", "nll_with_bases_calls", "phase_invariance_checks"]
 ANCHOR_FILES = ["qucumber/utils/training_statistics.py"]
 REACH = [
@@ -108,7 +108,19 @@ def run_case(case, ctx):
             break
         am = {k: v * 0.7 for k, v in am.items()}
         ph = None if ph is None else {k: v * 0.7 for k, v in ph.items()}
-    st = gen.make_state(kind, am, ph)
+    if case["rep"] % 2:
+        def warm(s_):
+            sp_ = s_.generate_hilbert_space()
+            if kind == "mixed":
+                t_ = gen.enc(np.eye(N) / N)
+            else:
+                t_ = gen.enc(np.ones(N) / np.sqrt(N))
+            ts.fidelity(s_, t_), ts.KL(s_, t_, bases=["X" * n, "Z" * n]), ts.NLL(s_, sp_)
+        st, how = gen.make_state_used(rng, kind, am, ph, warm)
+        ctx.count("states_used_before_with_other_parameters")
+        ctx.seen("parameter_change_idioms", how)
+    else:
+        st = gen.make_state(kind, am, ph)
     sp = st.generate_hilbert_space()
     units = nh + (na if kind == "mixed" else 0)
     tol = TAU * 2 * units + 1e-10
